@@ -9,17 +9,17 @@ FIXES = subprocess.run(['git', '-C', '/repo', 'log', '--format=%h %s', 'bbece76.
 CHECKS = {
  'C01': dict(
    technique='abstract interpretation of the session layer (own forking interpreter over the AST, interval refinement, no solver): complete (event,state) reaction table extracted from source and compared cell by cell with an RFC 4271 8.2.2 profile; wire-dispatch and establishment-typestate rules on the same table',
-   text='Static rule discharge: for every FSM state and every entry point (operator command, each timer callback, Twisted connection callbacks, every input class of parse_buffer) all paths of the handler code are extracted and each resulting cell (messages with code/subcode, close, next state) is compared with the RFC profile. Decides the per-event reaction for all (state,event) pairs, hence for every history in the single-connection regime, because handlers read only the state and a closed set of atoms. Does not decide timing or reactor interleavings. Added: an error close to Idle carries a restart token exactly when automatic restart is allowed. The ConnectRetryTimer is off whenever OpenSent is entered; constant-table lookups (.get on module dictionaries) and attribute access on None are modelled, so an exception swallowed by the catch-all of parse_buffer shows as a message that is dispatched to nobody. An error close from a session state stops the hold and keepalive timers.',
+   text='Static rule discharge: for every FSM state and every entry point (operator command, each timer callback, Twisted connection callbacks, every input class of parse_buffer) all paths of the handler code are extracted and each resulting cell (messages with code/subcode, close, next state) is compared with the RFC profile. Decides the per-event reaction for all (state,event) pairs, hence for every history in the single-connection regime, because handlers read only the state and a closed set of atoms. Does not decide timing or reactor interleavings. Added: an error close to Idle carries a restart token exactly when automatic restart is allowed. The ConnectRetryTimer is off whenever OpenSent is entered; constant-table lookups (.get on module dictionaries) and attribute access on None are modelled, so an exception swallowed by the catch-all of parse_buffer shows as a message that is dispatched to nobody. An error close from a session state stops the hold and keepalive timers. ManualStop zeroes the ConnectRetryCounter in every regime; BGPTimer.active() asks the pending DelayedCall.',
    design='DESIGN.md section 3 C01, Appendix A/B',
    note='Trusted: CPython ast; the Twisted model of sa/session.py (buildProtocol, callFromThread, loseConnection ends in connectionLost); BGPTimer primitives (shape checked by C03 R03.g); the transcribed RFC profile in sa/profile.py. Decoder loops abstracted to 0/1 iteration.'),
  'C02': dict(
    technique='restart-token must-analysis on the extracted reaction table (abstract interpretation of fsm.py/factory.py/protocol.py) + who-may-write scan of the operator flag',
-   text='Static rule discharge of the structural necessary condition of self-healing: on every non-operator path of every (event,state) cell that ends in Idle, or that consumes a pending restart, a reconnection is pending afterwards (idle-hold timer armed, connect started, or close requested whose connectionLost re-arms it); the restart chain is guarded by nothing but the operator flag, which only manual start/stop write. By induction over events this gives "never stuck" for every history; the numeric time bound and "stays up" are not decided. Added: the TCP-loss cells of the RFC profile are evaluated in every state (R02.g). The no-connection regimes include the one in which the previous connection\'s close was already reported (estab_protocol cleared) while the FSM still references the old protocol object.',
+   text='Static rule discharge of the structural necessary condition of self-healing: on every non-operator path of every (event,state) cell that ends in Idle, or that consumes a pending restart, a reconnection is pending afterwards (idle-hold timer armed, connect started, or close requested whose connectionLost re-arms it); the restart chain is guarded by nothing but the operator flag, which only manual start/stop write. By induction over events this gives "never stuck" for every history; the numeric time bound and "stays up" are not decided. Added: the TCP-loss cells of the RFC profile are evaluated in every state (R02.g). The no-connection regimes include the one in which the previous connection\'s close was already reported (estab_protocol cleared) while the FSM still references the old protocol object. Two structural conditions of "stays up" are decided: no timer armed with 0 in OpenConfirm/Established, and a late connectionLost of a replaced connection leaves the live session alone (R02.h).',
    design='DESIGN.md section 3 C02',
    note='Same trusted base as C01. Active is shown transient on every run (R02.f); if that stops holding its rows lose their exemption.'),
  'C03': dict(
    technique='timer-arming rules on the extracted reaction table with interval partition of the hold time (H = 0 / H > 0), symbolic check of the negotiated values (min, /k), AST shape rule for BGPTimer',
-   text='Static rule discharge: keepalive period = negotiated hold / k (k >= 3) and hold = min(configured, proposed) on every accepting path; keepalive expiry sends KEEPALIVE and re-arms iff H > 0; KEEPALIVE/UPDATE restart the hold timer; no timer is ever armed with H = 0; hold expiry sends NOTIFICATION (4,0) and closes; OPEN arms the 240 s timer; BGPTimer.reset/cancel have the semantics the rest relies on. Emission times, "at that moment" and same-instant orderings are not decided. Added: at wire level every delivered KEEPALIVE/UPDATE in Established (tolerated malformed UPDATE included) restarts the hold timer. BGPTimer.reset passes the requested delay on unchanged.',
+   text='Static rule discharge: keepalive period = negotiated hold / k (k >= 3) and hold = min(configured, proposed) on every accepting path; keepalive expiry sends KEEPALIVE and re-arms iff H > 0; KEEPALIVE/UPDATE restart the hold timer; no timer is ever armed with H = 0; hold expiry sends NOTIFICATION (4,0) and closes; OPEN arms the 240 s timer; BGPTimer.reset/cancel have the semantics the rest relies on. Emission times, "at that moment" and same-instant orderings are not decided. Added: at wire level every delivered KEEPALIVE/UPDATE in Established (tolerated malformed UPDATE included) restarts the hold timer. BGPTimer.reset passes the requested delay on unchanged. Reception of KEEPALIVE/UPDATE never re-arms the keepalive timer.',
    design='DESIGN.md section 3 C03',
    note='Same trusted base as C01; reactor.callLater / DelayedCall semantics as documented by Twisted.'),
  'C12': dict(
@@ -34,7 +34,7 @@ CHECKS = {
    note='Same trusted base as C01; REST thread-safety not decided.'),
  'C04': dict(
    technique='path-complete abstract interpretation of BGP.parse_buffer on a symbolic receive buffer with interval refinement of the header fields; AST shape rule for dataReceived; who-may-write scan of the buffer',
-   text='Static rule discharge: the deframer reads input only through the accumulated buffer (so its result is a function of the byte stream, not of the segmentation), an incomplete message changes nothing, a dispatched message consumes exactly the header length once with body buf[19:length], the accepted lengths are exactly [19,4096] and the dispatched types {1,2,3,4,5,128}, a framing violation stops parsing, and every True-returning path consumes >= 19 octets (termination of the loop). Equality with a reference deframer on concrete streams is argued from these, not enumerated. Added: besides the buffer no attribute of self is both written and read by the deframer; the parse loop is reached unconditionally.',
+   text='Static rule discharge: the deframer reads input only through the accumulated buffer (so its result is a function of the byte stream, not of the segmentation), an incomplete message changes nothing, a dispatched message consumes exactly the header length once with body buf[19:length], the accepted lengths are exactly [19,4096] and the dispatched types {1,2,3,4,5,128}, a framing violation stops parsing, and every True-returning path consumes >= 19 octets (termination of the loop). Equality with a reference deframer on concrete streams is argued from these, not enumerated. Added: besides the buffer no attribute of self is both written and read by the deframer; the parse loop is reached unconditionally. A type-1 message too short for the OPEN fixed part is answered as a header (length) error.',
    design='DESIGN.md section 3 C04',
    note='Same trusted base as C01; len()/slice semantics of bytes as modelled in sa/prims.py.'),
  'C05': dict(
@@ -44,22 +44,22 @@ CHECKS = {
    note='Same trusted base as C01. Acceptance dominance itself is discharged by C01 R01.c (open-accept).'),
  'C10': dict(
    technique='exception-funnel rule (AST: calls inside catch-all try) + escape analysis on the extracted table with struct.unpack/opaque decoders modelled as possibly raising; per-path report counting; effect set of the malformed-UPDATE path; shared-state write scan over yabgp/message/**',
-   text='Static rule discharge: no exception escapes a Twisted callback on any extracted path, each well-framed message yields at most one report on every path, the malformed-UPDATE path in Established only reports (with the raw bytes), counts and restarts the hold timer, and no decoder writes module/class/configuration state (so earlier input cannot change how later messages decode). Termination is C11/C04. Added: a well-framed message whose decoder raises is consumed exactly once (it cannot wedge the messages behind it). No header is left undecided and every framing violation is answered in every state.',
+   text='Static rule discharge: no exception escapes a Twisted callback on any extracted path, each well-framed message yields at most one report on every path, the malformed-UPDATE path in Established only reports (with the raw bytes), counts and restarts the hold timer, and no decoder writes module/class/configuration state (so earlier input cannot change how later messages decode). Termination is C11/C04. Added: a well-framed message whose decoder raises is consumed exactly once (it cannot wedge the messages behind it). No header is left undecided and every framing violation is answered in every state. The Data of every NOTIFICATION built is a byte string; no except clause of parse_buffer reports to the application.',
    design='DESIGN.md section 3 C10',
    note='Same trusted base as C01. Library calls other than struct.unpack and the opaque Update codec are assumed not to raise.'),
  'C18': dict(
    technique='path counting on the abstract interpretation of every BGP.send_* method and of every table cell: delta of the concrete counter dictionaries vs number of transport writes / dispatched frames, per type; who-may-write scan',
-   text='Static rule discharge: on every path of every send method and of every (event,state) cell the sent counters move by exactly the messages written per type; on every dispatch path the received counter of the frame type moves by 1 iff the frame has the minimum length of its type; only BGP methods write the dictionaries and the REST view returns the tracked protocol. By induction over events the counters equal the wire counts for every history. One known finding (short OPEN frames are counted). Request-driven sends count after the write; the statistic route is not gated by the session state.',
+   text='Static rule discharge: on every path of every send method and of every (event,state) cell the sent counters move by exactly the messages written per type; on every dispatch path the received counter of the frame type moves by 1 iff the frame has the minimum length of its type; only BGP methods write the dictionaries and the REST view returns the tracked protocol. By induction over events the counters equal the wire counts for every history. One known finding (short OPEN frames are counted). Request-driven sends count after the write; the statistic route is not gated by the session state. No send / write call is given several joined messages.',
    design='DESIGN.md section 3 C18',
    note='Same trusted base as C01; effects inside the internal-queue drain loop are seen for one iteration.'),
  'C08': dict(
    technique='ByteLen analysis: every construct function abstractly interpreted to symbolic concatenations; linear-form equality between each len()-derived field and the bytes it covers; symbolic TLV-stream walker for literal lengths (tunnel encapsulation, capabilities), MP_REACH layout, attribute-header/flag table rule, finite partition of prefix widths',
-   text='Static rule discharge on all 65 construct functions: message headers (marker, total length, type), attribute headers (RFC category flags, type code, extended-length bit iff 2-octet length, length = value size), every len()-computed field equals the run of bytes that follows it on every path (0/1 loop iteration, linear arithmetic), literal TLV lengths equal literal bodies, prefixes occupy ceil(len/8) octets for every length, and no construct path returns None silently. Value-range overflow and the 4096 limit are not decided. Added: every returning path of every message-level constructor yields exactly marker + length(total) + type + body; fixed-width fields (PMSI label = 3 octets) on every path. The 1-octet attribute length form is reached for at most 255 octets; an accumulator that is grown and emitted inside a loop is reset inside that loop. No handler inside a loop of a construct function skips an element silently.',
+   text='Static rule discharge on all 65 construct functions: message headers (marker, total length, type), attribute headers (RFC category flags, type code, extended-length bit iff 2-octet length, length = value size), every len()-computed field equals the run of bytes that follows it on every path (0/1 loop iteration, linear arithmetic), literal TLV lengths equal literal bodies, prefixes occupy ceil(len/8) octets for every length, and no construct path returns None silently. Value-range overflow and the 4096 limit are not decided. Added: every returning path of every message-level constructor yields exactly marker + length(total) + type + body; fixed-width fields (PMSI label = 3 octets) on every path. The 1-octet attribute length form is reached for at most 255 octets; an accumulator that is grown and emitted inside a loop is reset inside that loop. No handler inside a loop of a construct function skips an element silently. The Opt Parm Len of the OPEN equals the size of the optional parameters the same call appends; no signed struct code in construct functions.',
    design='DESIGN.md section 3 C08',
    note='Trusted: struct.calcsize, netaddr .packed being 4 or 16 octets, transcribed RFC flag categories / TLV grammars in sa/rules/c08.py.'),
  'C09': dict(
    technique='finite partition of value lengths 0..40 through the abstract interpreter for every fixed-length attribute decoder (acceptance sets vs RFC sets), constant folding of the trailing-bit mask for r=1..7, AST extraction of the dispatch table vs oracle, structural rule for generic extended-length handling',
-   text='Static rule discharge of the decidable part: extended length is selected from the flags before and independent of the type dispatch, the trailing-bit mask is the top-r-bits mask, the type dispatch table equals the oracle (AS4 attributes always 4-octet), each fixed-length decoder accepts exactly the RFC length set, ORIGIN accepts {0,1,2}, prefix length > 32 and bad segment types are rejected. Value-level agreement with a reference encoder is not decided. Added: with add-path on, every decoded prefix carries the identifier read for it for every identifier value (0 included); with add-path off none does. Both IPv4 prefix-list decoders reject every length octet 33..255 (finite partition).',
+   text='Static rule discharge of the decidable part: extended length is selected from the flags before and independent of the type dispatch, the trailing-bit mask is the top-r-bits mask, the type dispatch table equals the oracle (AS4 attributes always 4-octet), each fixed-length decoder accepts exactly the RFC length set, ORIGIN accepts {0,1,2}, prefix length > 32 and bad segment types are rejected. Value-level agreement with a reference encoder is not decided. Added: with add-path on, every decoded prefix carries the identifier read for it for every identifier value (0 included); with add-path off none does. Both IPv4 prefix-list decoders reject every length octet 33..255 (finite partition). No decoder reads a field with a signed struct code.',
    design='DESIGN.md section 3 C09',
    note='Trusted: oracle tables in sa/rules/c09.py; the interpreter model of struct/slices in sa/prims.py.'),
  'C11': dict(
@@ -69,22 +69,22 @@ CHECKS = {
    note='Trusted: interval transfer functions of sa/prims.py; helper return values are taken from one loop iteration (their lower bounds only grow with more iterations).'),
  'C06': dict(
    technique='abstract interpretation of Update.construct (every built part present in the result on every path), finite partition of IPv4 prefix widths on encoder and decoder, signed-format scan, per-attribute value layout vs RFC layout table, dispatch-table symmetry',
-   text='Static rule discharge of necessary conditions of the round trip: no part of the request is dropped or replaced by None, encoder and decoder use ceil(m/8) octets for every m in 0..32, no signed wire format, each standard attribute encoder writes the field widths its decoder reads (RFC layout table), every encoded type code has the same codec class on the decode side. Round-trip equality over the value space is NOT decided (not a static property); breaking any of these clauses breaks the round trip. Added: no standard attribute codec sorts/reverses/de-duplicates a collection of input elements; every well-known community name the decoder renders is accepted back. AS_PATH switches to the extended length form exactly at 256 octets (interval of the packed length per path); no comparison in these codecs splits a range between 2^k-2 and 2^k-1. Decoders subscript constant tables with received keys only under a membership / equality test of that key.',
+   text='Static rule discharge of necessary conditions of the round trip: no part of the request is dropped or replaced by None, encoder and decoder use ceil(m/8) octets for every m in 0..32, no signed wire format, each standard attribute encoder writes the field widths its decoder reads (RFC layout table), every encoded type code has the same codec class on the decode side. Round-trip equality over the value space is NOT decided (not a static property); breaking any of these clauses breaks the round trip. Added: no standard attribute codec sorts/reverses/de-duplicates a collection of input elements; every well-known community name the decoder renders is accepted back. AS_PATH switches to the extended length form exactly at 256 octets (interval of the packed length per path); no comparison in these codecs splits a range between 2^k-2 and 2^k-1. Decoders subscript constant tables with received keys only under a membership / equality test of that key. construct_prefix_v4 receives the request\'s own prefix lists; decoder loops run while a minimal element still fits.',
    design='DESIGN.md section 3 C06',
    note='Trusted: RFC layout table in sa/rules/c06.py; interpreter model of struct/slices.'),
  'C07': dict(
    technique='AFI/SAFI dispatch tables extracted from both directions and compared, finite partition of NLRI prefix widths, abstract interpretation of ESI/RD/label encoders for exact record sizes and the bottom-of-stack bit, type-tag set comparison',
-   text='Static rule discharge of necessary conditions: every family the MP_REACH/MP_UNREACH encoders emit is decoded by the same codec class, NLRI prefix helpers emit ceil(m/8) octets from full-width addresses, ESI is 10 octets for every type, RD 8, labels 3 with the S bit on the last one, RD/ESI type tags handled on both sides. Value equality is not decided. Added: the decoder hands every ESI value octet the encoder writes to a conversion (read-coverage log of the interpreter), the flowspec operator octet is folded for all 256 values against the RFC 5575 bit fields and every length the encoder accepts maps to the code the decoder maps back, no NLRI codec reorders or de-duplicates input collections. Five known findings. Every returning path of an EVPN route-type decoder yields every key its encoder requires; the IPv6 link-local next hop is reported exactly for a 32-octet next hop on every path; no comparison splits a range between 2^k-2 and 2^k-1. With two labels the S bit is on the last entry only on every path; the flowspec operand is never produced by a stripping operation.',
+   text='Static rule discharge of necessary conditions: every family the MP_REACH/MP_UNREACH encoders emit is decoded by the same codec class, NLRI prefix helpers emit ceil(m/8) octets from full-width addresses, ESI is 10 octets for every type, RD 8, labels 3 with the S bit on the last one, RD/ESI type tags handled on both sides. Value equality is not decided. Added: the decoder hands every ESI value octet the encoder writes to a conversion (read-coverage log of the interpreter), the flowspec operator octet is folded for all 256 values against the RFC 5575 bit fields and every length the encoder accepts maps to the code the decoder maps back, no NLRI codec reorders or de-duplicates input collections. Five known findings. Every returning path of an EVPN route-type decoder yields every key its encoder requires; the IPv6 link-local next hop is reported exactly for a 32-octet next hop on every path; no comparison splits a range between 2^k-2 and 2^k-1. With two labels the S bit is on the last entry only on every path; the flowspec operand is never produced by a stripping operation. No signed struct code in the NLRI / MP codecs.',
    design='DESIGN.md section 3 C07',
    note='Assumes MAC addresses have six groups; padded-hex idiom recognised structurally.'),
  'C14': dict(
    technique='abstract interpretation of Open.parse (result dictionary on every normal path), struct-format agreement between parse and construct of each message, finite partition of KEEPALIVE body lengths, capability code tables vs IANA and encoder/decoder branch sets',
-   text='Static rule discharge: Open.parse returns the dictionary with and without optional parameters, the fixed parts use the same formats and offsets both ways, KEEPALIVE is 19 octets and only an empty body is accepted, capability constants equal the IANA codes and every emitted capability has an encoder and a decoder branch, unknown codes are kept. Value equality is not decided. Added: the capability dispatch is total over codes 0..255 (finite partition); NOTIFICATION construct packs the code/subcode/data given on every path. No comparison in these codecs splits a range between 2^k-2 and 2^k-1 (AS 65535 is a 2-octet AS). Open.parse leaves the hold-time field unconstrained (the codec accepts 0..65535).',
+   text='Static rule discharge: Open.parse returns the dictionary with and without optional parameters, the fixed parts use the same formats and offsets both ways, KEEPALIVE is 19 octets and only an empty body is accepted, capability constants equal the IANA codes and every emitted capability has an encoder and a decoder branch, unknown codes are kept. Value equality is not decided. Added: the capability dispatch is total over codes 0..255 (finite partition); NOTIFICATION construct packs the code/subcode/data given on every path. No comparison in these codecs splits a range between 2^k-2 and 2^k-1 (AS 65535 is a 2-octet AS). Open.parse leaves the hold-time field unconstrained (the codec accepts 0..65535). Record loops of Open.parse advance by the record size (no running counter in the stride); Opt Parm Len agrees with what follows; no signed struct code.',
    design='DESIGN.md section 3 C14',
    note='Trusted: IANA table in sa/rules/c14.py.'),
  'C15': dict(
    technique='AST dataflow rules over all 41 decoder loops: window discipline (no unbounded cursor suffix to an element decoder once the extent is known), no whole-buffer predicate, no loop-carried variable (def-use order), branch read/write independence of parse_attributes with the deferred BGP-LS consumer, ord-of-int-index scan',
-   text='Static rule discharge of the structural conditions that make list decoding compositional and attribute order irrelevant. Three known findings (label stack window x2, ::/0 pair). Equality on concrete pools is not decided. Added: result lists are write-only inside decoder loops; a loop test len(cursor) > K must not stop while a minimal element still fits. Loop-carried state is decided path-sensitively (must-definition walk of one iteration); no type branch of parse_attributes rebinds a session parameter.',
+   text='Static rule discharge of the structural conditions that make list decoding compositional and attribute order irrelevant. Three known findings (label stack window x2, ::/0 pair). Equality on concrete pools is not decided. Added: result lists are write-only inside decoder loops; a loop test len(cursor) > K must not stop while a minimal element still fits. Loop-carried state is decided path-sensitively (must-definition walk of one iteration); no type branch of parse_attributes rebinds a session parameter. The cursor stride does not depend on a loop-carried counter; elements are complete when appended; the remembered BGP-LS protocol id is only overwritten under a test that the NLRI carries one.',
    design='DESIGN.md section 3 C15',
    note='Syntactic def-use on loop bodies; comprehension variables excluded.'),
  'C16': dict(
@@ -94,17 +94,17 @@ CHECKS = {
    note='Trusted: Flask decorator order semantics, HTTPBasicAuth.get_password / login_required.'),
  'C17': dict(
    technique='table closure over folded constant tables and the if/elif chains of decoder, encoder and both REST views; structural comparison of the two recombination copies; normaliser/lookup agreement for well-known names; abstract interpretation of ExtCommunity.construct per code for the 8-octet size',
-   text='Static rule discharge of necessary conditions: every text name the decoder renders is translated by both views to a code the encoder handles, the name tables are inverse, the two view copies have identical arms, every well-known community name survives the encoder lookup, no decoder path raises on every input, every code encodes to 8 octets. Value-level identity of the text is not decided. Added: per extended-community code the decoder reads every value octet in which the encoder places a non-constant; raise-guards of the community encoders do not reject the largest value of a field. The boundary rule also covers the REST recombination code (65535 is a 2-octet AS administrator).',
+   text='Static rule discharge of necessary conditions: every text name the decoder renders is translated by both views to a code the encoder handles, the name tables are inverse, the two view copies have identical arms, every well-known community name survives the encoder lookup, no decoder path raises on every input, every code encodes to 8 octets. Value-level identity of the text is not decided. Added: per extended-community code the decoder reads every value octet in which the encoder places a non-constant; raise-guards of the community encoders do not reject the largest value of a field. The boundary rule also covers the REST recombination code (65535 is a 2-octet AS administrator). No signed struct code in the community codecs.',
    design='DESIGN.md section 3 C17',
    note='Trusted: constant folding of yabgp/common/constants.py by sa/front.py.'),
  'C19': dict(
    technique='per-item case analysis by abstract interpretation of each RIB / version updater on a one-element update with an open table (path per present/absent/equal case, concrete counter deltas and recorded mutations), table rows for the flush, guard/dominance and who-may-write AST rules',
-   text='Static rule discharge: for the two IPv4 RIB updaters and the flowspec/VPN version updaters (both directions) every case of the per-item table moves the counter and the table exactly as the model requires, withdrawals precede announcements, both RIBs are reset on every connectionMade/connectionLost path, and the RIB is reached only by well-formed IPv4 UPDATEs under the option. By induction over items and updates this gives the history property for the dictionary model. Added: rule tables are stored/removed exactly with the version move; the family tests compare afi_safi with the representation their producer yields (4 known findings: the receive side compares the decoder\'s tuple with list literals, so received flowspec/VPNv4 versions never move). Every write to the attributes in the REST view precedes the Adj-RIB-Out / version bookkeeping.',
+   text='Static rule discharge: for the two IPv4 RIB updaters and the flowspec/VPN version updaters (both directions) every case of the per-item table moves the counter and the table exactly as the model requires, withdrawals precede announcements, both RIBs are reset on every connectionMade/connectionLost path, and the RIB is reached only by well-formed IPv4 UPDATEs under the option. By induction over items and updates this gives the history property for the dictionary model. Added: rule tables are stored/removed exactly with the version move; the family tests compare afi_safi with the representation their producer yields (4 known findings: the receive side compares the decoder\'s tuple with list literals, so received flowspec/VPNv4 versions never move). Every write to the attributes in the REST view precedes the Adj-RIB-Out / version bookkeeping. The REST helper forwards the request unfiltered to the Adj-RIB-Out update; init_rib builds two independent tables.',
    design='DESIGN.md section 3 C19',
    note='Same trusted base as C01; the radix tree mirror is outside the statement.'),
  'C20': dict(
    technique='AST must-call / pairing rules on DefaultHandler (one write_msg per callback, write-flush-fsync-increment pairing and order), bytes-payload source scan over the decoders, recovery-path exit and rotation rules',
-   text='Static rule discharge of the structural conditions; crash points cannot be enumerated statically. What holds: one line per event with keys t/seq/type/msg, flush+fsync and exactly one sequence increment per line, no other writer, resume at recovered+1 in append mode. What fails today (6 known findings): the record is streamed with json.dump (not atomic), decoders can put bytes into the payload, recovery exits on a torn tail, recovery ignores all but the newest file. Added: no return/raise before the single write_msg of a callback; recovery does not look for the last line in a window of fixed size. write_msg calls nothing that replaces the per-peer file entry while it holds the fetched handle. The storing side of the per-peer tables uses the lower-cased key; list-format lines are read as Python literals.',
+   text='Static rule discharge of the structural conditions; crash points cannot be enumerated statically. What holds: one line per event with keys t/seq/type/msg, flush+fsync and exactly one sequence increment per line, no other writer, resume at recovered+1 in append mode. What fails today (6 known findings): the record is streamed with json.dump (not atomic), decoders can put bytes into the payload, recovery exits on a torn tail, recovery ignores all but the newest file. Added: no return/raise before the single write_msg of a callback; recovery does not look for the last line in a window of fixed size. write_msg calls nothing that replaces the per-peer file entry while it holds the fetched handle. The storing side of the per-peer tables uses the lower-cased key; list-format lines are read as Python literals. The keepalive line depends on the option only; the newest file is chosen by lexicographic / numeric order.',
    design='DESIGN.md section 3 C20',
    note='A crash-point enumeration is outside this technique; the atomic-line and recovery rules are necessary conditions of the crash clauses.'),
 }
